@@ -29,6 +29,8 @@ pub struct ParamCfg {
     pub idle_server_ms: u64,
     pub max_ack_delay_ms: u64,
     pub datagram: u32,
+    /// max_datagram_frame_size advertised by the server when it differs from the client's (`datagram`)
+    pub datagram_server: Option<u32>,
     pub mtu: usize,
     /// server certificate repeated this many times in its chain (size of the server's first flight)
     pub cert_repeat: usize,
@@ -49,6 +51,7 @@ impl Default for ParamCfg {
             idle_server_ms: 120_000,
             max_ack_delay_ms: 25,
             datagram: 0,
+            datagram_server: None,
             mtu: 1500,
             cert_repeat: 1,
             alpn_pad: 0,
@@ -61,7 +64,7 @@ impl ParamCfg {
     pub fn to_json(&self) -> Value {
         json!({"max_data": self.max_data, "stream_data": self.stream_data, "streams_bidi": self.streams_bidi,
                "streams_uni": self.streams_uni, "idle_client_ms": self.idle_client_ms, "idle_server_ms": self.idle_server_ms,
-               "max_ack_delay_ms": self.max_ack_delay_ms, "datagram": self.datagram, "mtu": self.mtu,
+               "max_ack_delay_ms": self.max_ack_delay_ms, "datagram": self.datagram, "datagram_server": self.datagram_server, "mtu": self.mtu,
                "cert_repeat": self.cert_repeat, "alpn_pad": self.alpn_pad, "wrong_ca": self.wrong_ca})
     }
 
@@ -77,6 +80,7 @@ impl ParamCfg {
             idle_server_ms: g("idle_server_ms", d.idle_server_ms),
             max_ack_delay_ms: g("max_ack_delay_ms", d.max_ack_delay_ms),
             datagram: g("datagram", 0) as u32,
+            datagram_server: v.get("datagram_server").and_then(|x| x.as_u64()).map(|x| x as u32),
             mtu: g("mtu", 1500) as usize,
             cert_repeat: g("cert_repeat", 1) as usize,
             alpn_pad: g("alpn_pad", 0) as usize,
@@ -113,6 +117,9 @@ impl ParamCfg {
     pub fn server(&self) -> ServerParameters {
         let mut p = ServerParameters::default();
         self.fill(&mut p, self.idle_server_ms);
+        if let Some(d) = self.datagram_server {
+            p.set(ParameterId::MaxDatagramFrameSize, d).expect("legal parameter");
+        }
         p
     }
 }
